@@ -453,8 +453,12 @@ func (s *Sim) finish() {
 		if !k.closed {
 			open++
 			s.Log(Ev{Kind: "leaked-socket", Task: k.Task, Step: k.Step, Sock: k.ID, Src: k.local.String(), Note: k.kindName()})
+		} else if s.dupHeld(k) {
+			open++
+			s.Log(Ev{Kind: "leaked-socket", Task: k.Task, Step: k.Step, Sock: k.ID, Src: k.local.String(), Note: k.kindName() + " (duplicated descriptor never closed)"})
 		}
 	}
+	s.releaseDups()
 	// release them so that the bubble can drain: each unwinds with runtime.Goexit in its hook
 	parked := s.parked
 	s.parked = nil
